@@ -258,3 +258,25 @@ Proof.
   remember (length bs - length rest)%nat as n. destruct n as [|n]; [lia|].
   apply (enc_uvarint_len_bound n 9 u Hb).
 Qed.
+
+(* whatever the reader accepts is a 64-bit value *)
+Lemma unzigzag_range u : 0 <= u < two64 -> int64_ok (unzigzag u).
+Proof.
+  unfold unzigzag, int64_ok, two63, two64. intros Hu. destruct (Z.even u); lia.
+Qed.
+
+Lemma dec_uvarint_range : forall bs i m x u rest,
+  dec_uvarint bs i m x = VOk (u, rest) -> 0 <= u < two64.
+Proof.
+  induction bs as [|b bs IH]; intros i m x u rest H; [discriminate|].
+  cbn [dec_uvarint] in H. destruct (b <? 128).
+  - destruct (Nat.ltb 9 i || Nat.eqb i 9 && (1 <? b)); [discriminate|].
+    injection H as <- _. apply Z.mod_pos_bound. unfold two64. lia.
+  - eauto.
+Qed.
+
+Lemma dec_varint_range bs v rest : dec_varint bs = VOk (v, rest) -> int64_ok v.
+Proof.
+  unfold dec_varint. destruct (dec_uvarint bs 0 1 0) as [[u r]| |] eqn:E; try discriminate.
+  intros H. injection H as <- _. apply unzigzag_range. eapply dec_uvarint_range; eauto.
+Qed.
